@@ -154,13 +154,73 @@ def bounded(repo, tier, seed):
     modes = ['best', 'separate', 'joined', 'all']
     r2 = pd.run(repo, tier, seed, ['C03'], (lambda i: [modes[i % 4]]) if tier == 'quick' else modes, 42 if tier == 'quick' else 600,
                 params_list=[{}, {'d': 600}, {'d': 3000}], weights=[1, 2, 1, 3, 3, 1])
-    return merge([r1, r2])
+    # ... and the candidate rows the aligner builds from several nearby seed peaks (conflict resolution is where invalid matchings come from)
+    na = 30000 if tier == 'quick' else 800000
+    seeds = [seed * 1000003 + i for i in range(na)]
+    res3 = pmap(aligner_chunk, [seeds[i:i + 150] for i in range(0, na, 150)], repo)
+    v3 = {}
+    for r in res3:
+        for case, bad, detail in r[2]:
+            key = f"{CIGAR}::monitor::C03::{bad[0]}"
+            if key not in v3 or len(case['query']) < len(v3[key]['input']['aligner_case']['query']):
+                v3[key] = dict(key=key, blame=CIGAR, input=dict(aligner_case=case), observed=detail, required='C03 statement')
+    from bcheck.c15 import build_case
+    r3 = result(sum(r[0] for r in res3), sum(r[1] for r in res3),
+                "HitEnum of the candidate rows of the real Aligner.align on generated label data with 2-6 seed peaks on neighbouring diagonals, both strands "
+                "(the C15 generators): replayed from the first pair it must reproduce the row's pairs; a row whose matching is invalid is skipped only if the "
+                "conflict monitor attributes it to a known conflict-resolution finding (K1/K2); non-trivial = >= 2 segments",
+                [build_case(seeds[0])], list(v3.values())[:4], exhaustive=False, bounds=f"{na} generated cases")
+    return merge([r1, r2, r3])
+
+
+CIGAR = 'src/alignment/alignment_results.py::AlignmentResultRow.cigarString'
+
+
+def aligner_case(case):
+    from bcheck import conflict_monitor as cm
+    from bcheck import records as R
+    from bcheck.c01 import align_case
+    row, ref, query = align_case(case)
+    pairs = [(p.reference.siteId, p.query.siteId) for p in row.alignedPairs]
+    nseg = len([s for s in row.segments if s.positions])
+    if not pairs:
+        return [], nseg, None
+    orient = '-' if case['reverse'] else '+'
+    if R.c01_pairs(pairs, orient, 10 ** 9, 10 ** 9):
+        mechs = R.conflict_mechanisms(cm.events(), 5)
+        if mechs and all(m[1] for m in mechs):
+            return [], nseg, None                      # consequence of a known finding (reported under C15 / C01)
+    text = row.cigarString
+    bad = decode(text, pairs, 1 if orient == '+' else -1)
+    return bad, nseg, dict(hitenum=text, pairs=pairs[:60])
+
+
+def aligner_chunk(seeds):
+    from bcheck.c15 import build_case
+    from bcheck.common import time_limit, CaseTimeout
+    out, nt = [], 0
+    for s in seeds:
+        case = build_case(s)
+        try:
+            with time_limit(20):
+                bad, nseg, detail = aligner_case(case)
+        except CaseTimeout:
+            bad, nseg, detail = ['terminates'], 0, None
+        except Exception as e:
+            bad, nseg, detail = [f'no_exception:{type(e).__name__}'], 0, repr(e)[:200]
+        nt += 1 if nseg >= 2 else 0
+        if bad:
+            out.append((case, bad, detail))
+    return len(seeds), nt, out[:10]
 
 
 def replay(repo, rp):
     from bcheck.common import use_repo
     use_repo(repo)
     i = rp['input']
+    if 'aligner_case' in i:
+        bad, _, detail = aligner_case(i['aligner_case'])
+        return (not bad), dict(violated=bad, detail=detail)
     if 'job' in i:
         from bcheck import pipe_driver as pd
         return pd.replay(repo, rp)
